@@ -1,3 +1,4 @@
+import Oidc.Shapes
 import Oidc.Proofs.CacheComplete
 import Oidc.Facts
 /-! # C12 — the cache returns only the latest unexpired value for a key (property theorems only) -/
@@ -86,5 +87,14 @@ example : ¬ NoEvict false (init 2) exOps2 := by
   simp only [exOps2, NoEvict]
   decide
 example : (get false (run false (init 2) exOps2) 6 "b").2 = some 2 := by decide
+
+/-! obligations against the regenerated program text: the six methods of cache.go read, statement for statement, as they did
+    when the three-structure model `Oidc.CacheImpl` was written after them (`Oidc/Shapes.lean`) -/
+theorem text_Cache_Set_ok : Oidc.Shapes.Text_Cache_Set := by unfold Oidc.Shapes.Text_Cache_Set; rfl
+theorem text_Cache_Get_ok : Oidc.Shapes.Text_Cache_Get := by unfold Oidc.Shapes.Text_Cache_Get; rfl
+theorem text_Cache_Delete_ok : Oidc.Shapes.Text_Cache_Delete := by unfold Oidc.Shapes.Text_Cache_Delete; rfl
+theorem text_Cache_Cleanup_ok : Oidc.Shapes.Text_Cache_Cleanup := by unfold Oidc.Shapes.Text_Cache_Cleanup; rfl
+theorem text_Cache_evictOldest_ok : Oidc.Shapes.Text_Cache_evictOldest := by unfold Oidc.Shapes.Text_Cache_evictOldest; rfl
+theorem text_Cache_removeItem_ok : Oidc.Shapes.Text_Cache_removeItem := by unfold Oidc.Shapes.Text_Cache_removeItem; rfl
 
 end Oidc.Props.C12
